@@ -144,6 +144,57 @@ def real_backfill(tt_full, assignments):
         return 'err', E_KEY
 
 
+
+# ------------------------------------------------------------------ queries of the reduced tree
+def tree_queries(rt, gt):
+    """Everything the marker reconciliation (validate_marker_lookup: all_parents, children, parents) and
+    the election (children, as_leaves, leaves_to_compare) ask of a TaxonomyTree, in the wire form of
+    RunMapping.run_reduced_queries (tag 1706) minus the level map."""
+    h = rt.hierarchy
+    n = len(h)
+    table = []
+    for li, lv in enumerate(h):
+        row = []
+        for x in rt.nodes_at_level(lv):
+            try:
+                ch = rt.children(lv, x)
+                ch = [0, [int(r) for r in ch] if li == n - 1 else [gt.num(c) for c in ch]]
+            except RuntimeError:
+                ch = [1, 5]
+            try:
+                par = rt.parents(lv, x)
+                par = [0, [[h.index(k), gt.num(v)] for k, v in par.items()]]
+            except KeyError:
+                par = [1, E_KEY]
+            row.append([gt.num(x), ch, par])
+        table.append(row)
+    al = rt.as_leaves
+    leaves = [[[gt.num(x), [gt.num(lf) for lf in al[lv][x]]] for x in al[lv]] for lv in h]
+    pairs = [[[gt.num(g[1]), gt.num(g[2])] for g in rt.leaves_to_compare(p)] for p in rt.all_parents]
+    return [[gt.num(x) for x in rt.children(None, None)], table, leaves, pairs]
+
+
+def first_query_difference(obs, mod, h):
+    """human-readable first difference between two tree_queries() answers"""
+    names = ['children(None, None)', 'node table', 'as_leaves', 'leaves_to_compare']
+    if obs[0] != mod[0]:
+        return f'children(None, None): code {obs[0]}, expected {mod[0]}'
+    for li, (ro, rm) in enumerate(zip(obs[1], mod[1])):
+        if [e[0] for e in ro] != [e[0] for e in rm]:
+            return f'nodes_at_level({h[li]}): code {[e[0] for e in ro]}, expected {[e[0] for e in rm]}'
+        for eo, em in zip(ro, rm):
+            if eo[1] != em[1]:
+                return f'children({h[li]}, n{eo[0]:03d}): code {eo[1]}, expected {em[1]}'
+            if eo[2] != em[2]:
+                return (f'parents({h[li]}, n{eo[0]:03d}): code {eo[2]}, expected {em[2]} '
+                        '([0, [[level index in the reduced hierarchy, node] ...]] | [1, KeyError])')
+    if len(obs[1]) != len(mod[1]):
+        return f'number of levels: code {len(obs[1])}, expected {len(mod[1])}'
+    for k in (2, 3):
+        if obs[k] != mod[k]:
+            return f'{names[k]}: code {obs[k]}, expected {mod[k]}'
+    return None
+
 # ------------------------------------------------------------------ generators
 def dyadic(rng, lo, hi, den):
     return rng.randrange(lo, hi + 1) / den
@@ -210,7 +261,8 @@ def function_part(ctx):
     from cell_type_mapper.taxonomy.taxonomy_tree import TaxonomyTree
     rng = ctx.rng
     cases = []
-    for gt in gen_trees(ctx, rng):
+    tree_list = gen_trees(ctx, rng)
+    for gt in tree_list:
         n = len(gt.levels)
         tt = TaxonomyTree(data=gt.data)
         ms = modes_for(rng, n)
@@ -372,7 +424,62 @@ def function_part(ctx):
             desc['model'], desc['impl'] = p, oc
             ctx.violation('reduce+place+backfill of the model differs from the real backfill of the same records',
                           desc, no_input=True)
+    reduced_query_part(ctx, tree_list)
 
+
+# ------------------------------------------------------------------ (i') the reduced tree as a tree
+def reduced_query_part(ctx, tree_list):
+    """For every generated tree and EVERY reduction _run_mapping can make of it (each droppable level,
+    flatten, a drop followed by flatten): the really reduced TaxonomyTree must ANSWER like the taxonomy
+    that never had the level - nodes_at_level, children and parents of every node, as_leaves,
+    leaves_to_compare of every parent - compared with (1) the queries of Model/Tree.v on
+    RunMapping.reduce t cfg (tag 1706) and (2) a TaxonomyTree constructed from the reduced data alone."""
+    from cell_type_mapper.taxonomy.taxonomy_tree import TaxonomyTree
+    rng = ctx.rng
+    cases = []
+    for gt in tree_list:
+        n = len(gt.levels)
+        if n < 2:
+            continue
+        tt = TaxonomyTree(data=gt.data)
+        cfgs = [(li, False) for li in range(n - 1)] + [(None, True), (rng.randrange(0, n - 1), True)]
+        for drop, flat in cfgs:
+            st, rt = real_reduce(tt, None if drop is None else gt.levels[drop], flat)
+            if st != 'ok':
+                continue                     # rejected configurations are compared in function_part
+            cases.append({'gt': gt, 'drop': drop, 'flat': flat, 'rt_hier': list(rt.hierarchy),
+                          'voted': [gt.levels.index(x) for x in rt.hierarchy],
+                          'queries': tree_queries(rt, gt),
+                          'queries_fresh': tree_queries(TaxonomyTree(data=json.loads(rt.to_str())), gt)})
+    qres = ctx.model([(1706, [c['gt'].model, [] if c['drop'] is None else [c['drop']], c['flat']]) for c in cases])
+    for c, m in zip(cases, qres):
+        gt = c['gt']
+        n = len(gt.levels)
+        kind = ('flatten' if c['drop'] is None else 'drop+flatten') if c['flat'] else \
+            ('top' if c['drop'] == 0 else 'middle, child level is the leaf level' if c['drop'] == n - 2 else
+             'middle, child level is a parent level')
+        # non-trivial: the reduced tree still has a parent level whose parents() must skip the removed level
+        ctx.count(('fn-queries', gt.shape_key(), json.dumps(gt.model), c['drop'], c['flat']),
+                  nontrivial=(not c['flat']) and c['drop'] not in (None, 0))
+        ctx.dist('reduced_tree_queries', f'{n} levels, {kind}')
+        if m[0] != 0 or m[1][0] != c['voted']:
+            diff = f'the model\'s reduction differs: {m[:1]}'
+        else:
+            diff = first_query_difference(c['queries'], m[1][1:], c['rt_hier'])
+            if diff is not None:
+                diff = 'vs the model\'s reduced tree: ' + diff
+        if diff is None:
+            d2 = first_query_difference(c['queries'], c['queries_fresh'], c['rt_hier'])
+            if d2 is not None:
+                diff = 'vs a TaxonomyTree built from the reduced data alone: ' + d2
+        if diff is not None:
+            ctx.disagreements_checked += 1
+            desc = {'kind': 'reduced-tree-queries', 'class': 'c17-reduced-tree-query-differs', 'tree': gt.data,
+                    'drop': c['drop'], 'drop_name': None if c['drop'] is None else gt.levels[c['drop']],
+                    'flatten': c['flat'], 'reduced_hierarchy': c['rt_hier'],
+                    'impl_queries': c['queries'], 'model_queries': m}
+            ctx.violation('the reduced taxonomy the mapper uses (real drop_level / flatten) does not answer like the taxonomy '
+                          f'that never had that level: {diff}', desc)
 
 # ------------------------------------------------------------------ (ii) election level
 def election_part(ctx):
